@@ -10,6 +10,9 @@ TRUTHY-0 an index is never tested by truthiness: a variable bound as the index o
 ROUND-0  round once, last: a value that was truncated (`int(e)`, `e // k`, `round(e)`, `math.floor/ceil/trunc`) is not scaled up afterwards
          by a constant (`int(secs) * 1000`): the fraction the finer unit could express is gone (0.5 s becomes 0 ms).  The scale
          belongs inside the truncation.  Recognised through one local (`v = int(e); return v * 1000`).
+LOOP-0   a `for` loop can take a second trip: some path through its body comes back to the loop head.  A body that leaves on every path
+         (`for s in sources: p = s.find(); if p: return p; return False`) looks at the first item only - a search that gives up
+         after the first candidate, a broadcast that reaches one receiver.  (No loop of the repository is written that way today.)
 NAME-0   delay names agree: a delay name (string constant) that a class cancels, checks or runs now is a name the class arms
          somewhere (its own methods or inherited ones).  A cancel under a name nobody arms cancels nothing.
 """
@@ -206,6 +209,52 @@ def round_once_last(chk):
                    detail="`%s` scales a value that was already truncated: the fraction the finer unit could express is lost" % src(node)[:70],
                    construct=ident, text="truncated then scaled " + src(node)[:50])
     chk.ob("ROUND-0", "no analysed function scales a value up after truncating it (%d functions)" % n, True, "mpf:1", nontrivial=False)
+
+
+_POS_LOOP = """
+def f(self, xs):
+    for x in xs:
+        p = x.find()
+        if p:
+            return p
+        return False
+"""
+
+
+def _single_trip_loops(fn_node):
+    from sa.cfg import CFG
+    out = []
+    loops = [x for x in ast.walk(fn_node) if isinstance(x, (ast.For, ast.AsyncFor))]
+    if not loops:
+        return out
+    cfg = CFG(fn_node)
+    for lp in loops:
+        heads = [h for h in cfg.nodes if h.kind == "loop" and h.ast is lp]
+        if not heads:
+            continue
+        h = heads[0]
+        it = [s_ for s_ in cfg.succs(h.id, True) if cfg.nodes[s_].tag == "iter"]
+        if it and not any(h.id in cfg.reachable([s_], ignore_exc=True) for s_ in it):
+            out.append(lp)
+    return out
+
+
+def loops_iterate(chk):
+    pos = ast.parse(_POS_LOOP).body[0]
+    if len(_single_trip_loops(pos)) != 1:
+        chk.pending_errors.append("LOOP-0 detector does not match its positive example")
+    n = 0
+    for ident in sorted(chk.funcs_analysed):
+        rel, qual = ident.split("::", 1)
+        f = chk.repo.try_func(rel, qual)
+        if f is None:
+            continue
+        for lp in _single_trip_loops(f.node):
+            chk.ob("LOOP-0", "a for loop can reach its second item (some path through the body returns to the loop head)", False, "%s:%d" % (rel, lp.lineno),
+                   detail="every path through the body of `for %s in %s` leaves the loop: only the first item is ever looked at" % (src(lp.target), src(lp.iter)[:50]),
+                   construct=ident, text="single-trip loop over " + src(lp.iter)[:50])
+        n += 1
+    chk.ob("LOOP-0", "every for loop of the analysed functions can take a second trip (%d functions)" % n, True, "mpf:1", nontrivial=False)
 
 
 _ARM = {"add", "reset", "add_if_doesnt_exist"}
